@@ -23,6 +23,39 @@ def _same_expr(a: str, b: str) -> bool:
         return False
 
 
+
+class _CopyCanon(ast.NodeTransformer):
+    """``dict(x, k=v)`` / ``dict(x)`` / ``x.copy()`` / ``copy.copy(x)`` / ``{**x, 'k': v}`` of the destination the application returned
+    is that destination (with further keys the library adds for itself): for the question *whom the sub-association goes to* it is x."""
+    def visit_Call(self, node):
+        self.generic_visit(node)
+        fn = ast.unparse(node.func)
+        if fn == 'dict' and len(node.args) == 1 and all(k.arg is not None for k in node.keywords):
+            return node.args[0]
+        if fn in ('copy.copy', 'copy.deepcopy') and len(node.args) == 1 and not node.keywords:
+            return node.args[0]
+        if isinstance(node.func, ast.Attribute) and node.func.attr == 'copy' and not node.args and not node.keywords:
+            return node.func.value
+        return node
+
+    def visit_Dict(self, node):
+        self.generic_visit(node)
+        spreads = [v for k, v in zip(node.keys, node.values) if k is None]
+        if len(spreads) == 1 and node.keys[0] is None:
+            return spreads[0]
+        return node
+
+
+def _copy_canon(term: str) -> str:
+    try:
+        e = ast.parse(term, mode='eval').body
+    except SyntaxError:
+        return term
+    e2 = _CopyCanon().visit(e)
+    ast.fix_missing_locations(e2)
+    return ast.unparse(e2)
+
+
 def run(repo, rep):
     from ..pitfalls import memo_rule as _memo_rule
     _memo_rule(repo, rep, 'C19', 'C19.Z1')
@@ -139,7 +172,7 @@ def run(repo, rep):
         if len(subs) != 1:
             p2.append('%d store sub-operations for one instance' % len(subs))
             continue
-        if subs[0].callee != '%s.get_scu(%s.SOPClassUID)' % (assoc, item):
+        if _copy_canon(subs[0].callee) != '%s.get_scu(%s.SOPClassUID)' % (assoc, item):
             p2.append('sub-operation performed by %s, expected the storage service of the sub-association to the returned destination' % subs[0].callee)
         if not subs[0].args or subs[0].args[0] != item:
             p2.append('sub-operation stores %s, not the current instance' % (subs[0].args[:1],))
